@@ -1,6 +1,7 @@
 package main
 
 import (
+	"strconv"
 	"context"
 	"encoding/json"
 	"flag"
@@ -38,6 +39,9 @@ type rlScen struct {
 	// is the HIGH nibble of the partly consumed byte, whose low nibble belongs to the bucket: all keys share the
 	// bucket, and the stored keys are an order- and prefix-preserving image of the model keys.
 	Bits int `json:"bits"`
+	// Fill = j > 0: the index file-size limit is set to the exact length the index file has after the j-th flush of this
+	// history (measured in a dry run), so that the NEXT flush finds the file exactly full
+	Fill int `json:"fill"`
 }
 
 const rlBucketByte = 7
@@ -99,9 +103,27 @@ func rlDecode(p []byte, bits int) []byte {
 }
 
 func reclistOne(dir string, tr *core.Tracer, sc *rlScen) (bool, error) {
+	limit := uint32(1024)
+	if sc.Fill > 0 {
+		_, sizes, err := reclistRun(dir, nil, sc, 1<<20)
+		if err != nil {
+			return false, err
+		}
+		if sc.Fill <= len(sizes) && sizes[sc.Fill-1] > 0 {
+			limit = uint32(sizes[sc.Fill-1])
+		}
+	}
+	ok, _, err := reclistRun(dir, tr, sc, limit)
+	return ok, err
+}
+
+// reclistRun executes the history with the given index file-size limit; tr == nil is a dry run. It returns the length of
+// the current index file after every flush op.
+func reclistRun(dir string, tr *core.Tracer, sc *rlScen, limit uint32) (bool, []int64, error) {
+	var sizes []int64
 	d, err := os.MkdirTemp(dir, "rl")
 	if err != nil {
-		return false, err
+		return false, nil, err
 	}
 	defer os.RemoveAll(d)
 	bits := sc.Bits
@@ -111,9 +133,9 @@ func reclistOne(dir string, tr *core.Tracer, sc *rlScen) (bool, error) {
 	rlKey := func(k []int) []byte { return rlKeyBits(k, bits) }
 	prim := inmemory.New(nil)
 	fc := filecache.New(8)
-	idx, err := index.Open(context.Background(), filepath.Join(d, "idx"), prim, uint8(bits), 1024, 0, 0, fc)
+	idx, err := index.Open(context.Background(), filepath.Join(d, "idx"), prim, uint8(bits), limit, 0, 0, fc)
 	if err != nil {
-		return false, err
+		return false, nil, err
 	}
 	defer idx.Close()
 
@@ -138,7 +160,12 @@ func reclistOne(dir string, tr *core.Tracer, sc *rlScen) (bool, error) {
 		return core.Ev{"rl": lst, "gets": gets}, recs, nil
 	}
 
-	tr.Emit("reset", core.Ev{"keys": sc.Keys})
+	emit := func(e string, ev core.Ev) {
+		if tr != nil {
+			tr.Emit(e, ev)
+		}
+	}
+	emit("reset", core.Ev{"keys": sc.Keys})
 	var last []index.Record
 	for _, op := range sc.Ops {
 		ev := core.Ev{"err": "", "loc": -1, "removed": false}
@@ -147,7 +174,7 @@ func reclistOne(dir string, tr *core.Tracer, sc *rlScen) (bool, error) {
 			key := rlKey(op.K)
 			blk, err := prim.Put(key, []byte{byte(len(*prim))})
 			if err != nil {
-				return false, err
+				return false, nil, err
 			}
 			ev["loc"] = int(blk.Offset)
 			ev["k"] = op.K
@@ -170,8 +197,17 @@ func reclistOne(dir string, tr *core.Tracer, sc *rlScen) (bool, error) {
 			if _, err := idx.Flush(); err != nil {
 				ev["err"] = err.Error()
 			}
+			var cur int64
+			for n := 0; ; n++ {
+				fi, err := os.Stat(filepath.Join(d, "idx") + "." + strconv.Itoa(n))
+				if err != nil {
+					break
+				}
+				cur = fi.Size()
+			}
+			sizes = append(sizes, cur)
 		default:
-			return false, fmt.Errorf("unknown op %q", op.Op)
+			return false, nil, fmt.Errorf("unknown op %q", op.Op)
 		}
 		obs, recs, err := snapshot()
 		if err != nil {
@@ -180,20 +216,20 @@ func reclistOne(dir string, tr *core.Tracer, sc *rlScen) (bool, error) {
 		}
 		last = recs
 		ev["rl"], ev["gets"] = obs["rl"], obs["gets"]
-		tr.Emit(op.Op, ev)
+		emit(op.Op, ev)
 	}
 	// model conformance figure: prefixes of the final list equal the model's
 	if len(last) != len(sc.Rl) {
-		return false, nil
+		return false, sizes, nil
 	}
 	for i, r := range last {
 		if string(rlDecode(r.Key, bits)) != string(core.Bytes(sc.Rl[i].P)) {
-			return false, nil
+			return false, sizes, nil
 		}
 		fk, _, err := prim.Get(types.Block{Offset: r.Block.Offset})
 		if err != nil || string(fk) != string(rlKey(sc.Rl[i].K)) {
-			return false, nil
+			return false, sizes, nil
 		}
 	}
-	return true, nil
+	return true, sizes, nil
 }
